@@ -110,6 +110,9 @@ type recCase struct {
 	Rate uint32 `json:"rate"`
 	Evs  []ev   `json:"evs"`
 	Obs  []obs  `json:"obs"`
+	// c19icp only: the interceptor-level history this case was projected from
+	// (a replay goes through the interceptor again)
+	Icp *icpCase `json:"icp,omitempty"`
 }
 
 // interceptor case: streams bound up front, then events
@@ -435,9 +438,22 @@ func marshalRTP(e ev) []byte {
 }
 
 func marshalRTCP(ps []pkt) []byte {
-	buf, err := rtcp.Marshal(mkPkts(ps))
+	orig := mkPkts(ps)
+	buf, err := rtcp.Marshal(orig)
 	if err != nil {
 		panic(err)
+	}
+	// the generator must only produce compounds that pion/rtcp parses back to
+	// the same packets (parsing is modelled, not verified)
+	back, err := rtcp.Unmarshal(buf)
+	if err != nil || len(back) != len(orig) {
+		panic(fmt.Sprintf("generator: compound does not round-trip: %v (%d/%d)", err, len(back), len(orig)))
+	}
+	for i := range back {
+		if fmt.Sprint(back[i].DestinationSSRC()) != fmt.Sprint(orig[i].DestinationSSRC()) ||
+			fmt.Sprintf("%T", back[i]) != fmt.Sprintf("%T", orig[i]) {
+			panic(fmt.Sprintf("generator: packet %d does not round-trip: %v / %v", i, back[i], orig[i]))
+		}
 	}
 
 	return buf
@@ -583,7 +599,10 @@ func runIcp(ic icpCase) []recCase {
 	}
 	res := make([]recCase, 0, len(order))
 	for _, s := range order {
-		res = append(res, *out[s])
+		c := *out[s]
+		icCopy := ic
+		c.Icp = &icCopy
+		res = append(res, c)
 	}
 
 	return res
@@ -829,6 +848,9 @@ func (g *gen) rtcpPkt(incoming bool) pkt {
 			g.buckets["fir-media0"] = true
 		}
 		n := g.r.Intn(3)
+		if incoming && n == 0 {
+			n = 1 // pion/rtcp refuses to parse a FIR without FCI entries (and then the whole compound is dropped)
+		}
 		for i := 0; i < n; i++ {
 			p.Entries = append(p.Entries, g.anySSRC())
 		}
@@ -960,6 +982,13 @@ func main() {
 		var c recCase
 		cq.LoadReplay(o.Replay, &c)
 		rc := runRec(c.SSRC, c.Rate, c.Evs)
+		if set == "c19icp" && c.Icp != nil {
+			for _, pc := range runIcp(*c.Icp) {
+				if pc.SSRC == c.SSRC {
+					rc = pc
+				}
+			}
+		}
 		if set == "c19icp" {
 			icpSet.Cases = append(icpSet.Cases, rc.toCase([]string{"replay"}))
 		} else {
@@ -975,7 +1004,7 @@ func main() {
 		cq.LoadReplay(f, &c)
 		recSet.Cases = append(recSet.Cases, runRec(c.SSRC, c.Rate, c.Evs).toCase([]string{"corpus"}))
 	}
-	nrec := o.Scale(1400, 40000)
+	nrec := o.Scale(1400, 12000)
 	for i := 0; i < nrec; i++ {
 		g := newGen(r)
 		rate := rates[r.Intn(len(rates))]
@@ -987,7 +1016,7 @@ func main() {
 		evs := g.history(3+r.Intn(28), mode)
 		recSet.Cases = append(recSet.Cases, runRec(g.s, rate, evs).toCase(g.bucketList(fmt.Sprintf("mode%d", mode))))
 	}
-	nicp := o.Scale(150, 4000)
+	nicp := o.Scale(150, 1200)
 	for i := 0; i < nicp; i++ {
 		g := newGen(r)
 		ic := icpCase{}
